@@ -71,7 +71,19 @@ RotOrtho == <<<<2, 2, 0>>, <<-2, 2, 0>>, <<0, 0, 4>>>>
 Ortho844 == Diag(8, 4, 4)
 Tric3    == <<<<8, 0, 0>>, <<-2, 4, 0>>, <<2, 2, 4>>>>
 LeftHand == <<<<0, 4, 0>>, <<4, 0, 0>>, <<0, 0, 4>>>>          \* negative determinant
-TabBoxes == {Ortho444, Ortho248, Tric1, Tric2, RotOrtho, Ortho844, Tric3, LeftHand}
+(* The tilt pattern of a box says which of the three pairs of box vectors are NOT
+   perpendicular: <<a.b # 0, a.c # 0, b.c # 0>>.  Whether a box is orthogonal is decided by
+   the library pair by pair (box.is_orthogonal) and selects the algorithm of the pairwise
+   distance functions, so every one of the 8 patterns is a value class of its own:
+     FFF the orthogonal boxes above, TFF Tric1, FTT Tric2, TTT Tric3,
+     FTF TricAC, FFT TricBC, TTF TricABAC, TFT TricABBC. *)
+TricAC   == <<<<4, 0, 0>>, <<0, 4, 0>>, <<2, 0, 4>>>>
+TricBC   == <<<<4, 0, 0>>, <<0, 4, 0>>, <<0, 2, 4>>>>
+TricABAC == <<<<4, 0, 0>>, <<2, 4, 0>>, <<2, -1, 4>>>>
+TricABBC == <<<<4, 0, 0>>, <<2, 4, 0>>, <<0, 2, 4>>>>
+TiltBoxes == {TricAC, TricBC, TricABAC, TricABBC}
+TabBoxes == {Ortho444, Ortho248, Tric1, Tric2, RotOrtho, Ortho844, Tric3, LeftHand} \cup TiltBoxes
+TiltPattern(B) == <<Dot(B[1], B[2]) # 0, Dot(B[1], B[3]) # 0, Dot(B[2], B[3]) # 0>>
 BoxTables == EagerFcn([B \in TabBoxes |-> MinImageTable(B, 2)])
 MinN2(d, bx) ==
   IF bx.B \in TabBoxes THEN BoxTables[bx.B][MoveInsideP(d, bx)] ELSE MinImageN2(d, bx.B, 2)
@@ -92,6 +104,36 @@ MustInCells(inp, q, c) == Near(inp, q, CellRho(inp[2], c))
 \* create_adjacency_matrix(threshold): row k = atoms within the threshold of atom k;
 \* rows and columns of unselected atoms are empty
 AdjRow(inp, k, rho) == IF k \in Selected(inp) THEN Near(inp, inp[1][k], rho) ELSE {}
+
+(* ------------------------------------------------------------------ pairwise distance matrix *)
+(* "the adjacency matrix equals the thresholded pairwise distance matrix": the pairwise
+   distance matrix is the one the library's own distance functions return
+   (geometry.distance(box=...) / index_distance(periodic=True): minimum-image convention).
+   PairD2(inp, k, m) is the squared (minimum-image) distance between atom k and atom m
+   (every atom, selected or not: the distance functions know no selection) and
+   DistAdjRow(inp, k, rho) is row k of that matrix thresholded at rho and restricted to the
+   selection - which the property says is row k of the adjacency matrix.
+
+   Domain.  The documentation of the distance functions warns that for non-orthorhombic
+   boxes the shortest periodic copy is not guaranteed to be found, "especially for heavily
+   skewed boxes": only the 8 copies  w + k.B, k in {-1, 0}^3  of the displacement w moved
+   into the box are looked at.  Dom_Images8(B) is the geometric condition on the box under
+   which that is harmless (these 8 copies always contain a shortest one) - the counterpart
+   of Dom_Images27 for the cell list.  It holds for every orthogonal box; TLC evaluates it
+   for each tabulated box (PairExact).  For a box outside Dom_Images8 only
+       distance matrix entry >= minimum-image distance
+   is required (the distance functions always return the length of SOME periodic copy),
+   i.e. thresholded distance matrix \subseteq adjacency matrix. *)
+Dom_Images8(B, T) ==    \* T = MinImageTable(B, 2)
+  \A w \in DOMAIN T : SetMin({Norm2(VAdd(w, LatVec(Shifts8[k], B))) : k \in 1..8}) = T[w]
+PairExactTab == EagerFcn([B \in TabBoxes |-> Dom_Images8(B, BoxTables[B])])
+PairExact(inp) == IF IsPeriodic(inp) THEN (IF BoxOf(inp) \in TabBoxes THEN PairExactTab[BoxOf(inp)] ELSE FALSE) ELSE TRUE
+PairD2(inp, k, m) == D2(inp, k, inp[1][m])
+DistAdjRow(inp, k, rho) == IF k \in Selected(inp) THEN {m \in Selected(inp) : Within(PairD2(inp, k, m), rho)} ELSE {}
+\* implementation-shaped (geometry.displacement: orthogonal shortcut or 8 copies, chosen by
+\* is_orthogonal): squared length of the displacement from atom k to atom m
+ImplPairD2(inp, bx, k, m) ==
+  IF IsPeriodic(inp) THEN Norm2(ImplDispP(VSub(inp[1][m], inp[1][k]), bx)) ELSE Dist2(inp[1][k], inp[1][m])
 
 (* ------------------------------------------------------------------ implementation-shaped layer *)
 \* stored coordinates: the atoms (moved into the box and followed by their 26 other
@@ -149,10 +191,15 @@ ImplNear(inp, g, q, rho) ==
 \* every stored atom has a cell inside the grid (no out-of-bounds write in __cinit__)
 ImplCellsInGrid(g) == \A m \in DOMAIN g.C : \A d \in 1..3 : g.ac[m][d] >= 0 /\ g.ac[m][d] < g.cnt[d]
 
-\* the search over images -2..2 of the declarative layer is stable (-3..3 finds nothing
-\* shorter) and the boxes with tables satisfy Dom_Images27
-ASSUME \A B \in TabBoxes : MinImageTable(B, 3) = BoxTables[B]
-ASSUME \A B \in TabBoxes : Dom_Images27(B, BoxTables[B])
+\* (the two expensive facts about the tabulated boxes - the search over images -2..2 is
+\* stable against -3..3, and every box satisfies Dom_Images27 - are ASSUMEd in CellGrid.tla,
+\* i.e. evaluated once per check in S1 and not again by every trace validation run)
+\* every orthogonal box is inside Dom_Images8; every tilt pattern (which pairs of box vectors
+\* are not perpendicular) occurs among the boxes, and among those inside Dom_Images8
+ASSUME \A B \in TabBoxes : IsOrthogonalBox(B) => PairExactTab[B]
+ASSUME \A pat \in BOOLEAN \X BOOLEAN \X BOOLEAN : \E B \in TabBoxes : TiltPattern(B) = pat /\ PairExactTab[B]
+\* (diagnostic print: which tabulated boxes are inside Dom_Images8)
+ASSUME PrintT(<<"C14PAIREXACT", [B \in TabBoxes |-> PairExactTab[B]]>>)
 \* docstring-level pins
 ASSUME CellRadius(<<4, 1>>, <<1, 1>>) = 2 /\ CellRadius(<<9, 1>>, <<3, 2>>) = 2 /\ CellRadius(<<5, 2>>, <<3, 2>>) = 2
        /\ CellRadius(<<0, 1>>, <<5, 1>>) = 0 /\ CellRadius(<<1, 2>>, <<5, 1>>) = 1
